@@ -37,7 +37,7 @@ class HealthCheckServer:
             self._server = await loop.create_server(
                 lambda: _HttpServerProtocol(
                     endpoint_name=self.server_settings.endpoint_name,
-                    status=self.health_status,
+                    server=self,
                 ),
                 host=self.server_settings.address,
                 port=self.server_settings.port,
@@ -63,10 +63,15 @@ class HealthCheckServer:
 
 
 class _HttpServerProtocol(asyncio.Protocol):
-    def __init__(self, endpoint_name: str, status: HealthCheckStatus) -> None:
+    def __init__(self, endpoint_name: str, server: HealthCheckServer) -> None:
         super().__init__()
         self.endpoint_name = endpoint_name
-        self.status = status
+        self.server = server
+
+    @property
+    def status(self) -> HealthCheckStatus:
+        # status at the time of the request, not at the time the connection was accepted
+        return self.server.health_status
 
     def connection_made(self, transport: asyncio.BaseTransport) -> None:
         self.transport: asyncio.WriteTransport = transport  # type: ignore[assignment]
